@@ -3058,7 +3058,7 @@ def comprehension(ip, e, fr, kind):
 SPEC_FUNCS = {'old', 'forall', 'exists', 'implies', 'iff', 'ite', 'dom', 'union', 'inter', 'diff', 'subset',
               'empty', 'add', 'remove', 'use', 'check', 'assume', 'pow2', 'store', 'lookup', 'has',
               'is_none', 'some', 'slice_', 'concat', 'listof', 'setof', 'card', 'fresh', 'havoc', 'tup',
-              'seq_eq', 'div', 'mod', 'bv', 'apply', 'let', 'take', 'snoc', 'copy', 'drop', 'sub', 'is_err', 'okval', 'truthy', 'truthy_j', 'py_eq', 'bjoin'}
+              'seq_eq', 'div', 'mod', 'bv', 'apply', 'let', 'take', 'snoc', 'copy', 'drop', 'sub', 'is_err', 'okval', 'truthy', 'truthy_j', 'py_eq', 'bjoin', 'fn_is'}
 
 
 def find_old(fr):
@@ -3247,6 +3247,13 @@ def spec_call(ip, e, fr):
     if name == 'concat':
         a, b = ev(e.args[0]), ev(e.args[1])
         return binop(ip, ast.Add(), a, b, e)
+    if name == 'fn_is':
+        # fn_is(f, "name"): the function value f is the function of that name (which of two rules a conditional selected)
+        f = ev(e.args[0])
+        want = e.args[1].value
+        if not isinstance(f, VFunc):
+            raise EngineError('fn_is() expects a function value')
+        return VConst(f.name == want or str(getattr(f, 'target', '')).endswith(':' + want) or str(getattr(f, 'target', '')).endswith('.' + want))
     if name == 'bjoin':
         # b''.join(list of bytes): the same uninterpreted function the code model uses
         v = ev(e.args[0])
